@@ -15,44 +15,44 @@ import (
 )
 
 type Summary struct {
-	Kind        string           `json:"kind"` // "summary"
-	Engine      string           `json:"engine"`
-	From, To    int
-	Runs        int              `json:"runs"`
-	Failures    map[string]int   `json:"failures"`
-	Steps       int64            `json:"steps"`
-	Switches    int64            `json:"switches"`
-	Preempts    int64            `json:"preempts"`
-	Forced      int64            `json:"forced_fired"`
-	OverBudget  int              `json:"over_budget"`
-	Policies    map[string]int   `json:"policies"`
-	Strategies  map[string]int   `json:"strategies"`
-	Cells       map[string]int   `json:"cells"` // strategy|api
-	PoolGets    int64            `json:"pool_gets"`
-	PoolPuts    int64            `json:"pool_puts"`
-	PoolNews    int64            `json:"pool_news"`
-	PoolDrops   int64            `json:"pool_drops"`
-	PoolMisses  int64            `json:"pool_misses"`
-	PoolReorder int64            `json:"pool_reorders"`
-	Knobs       map[string]int   `json:"knobs"`
-	Probes      map[string]int64 `json:"probes"`
-	SitesHit    int              `json:"sites_hit"`
-	SitesTotal  int              `json:"sites_total"`
-	PreemptSitesUsed int         `json:"preempt_sites_used"`
-	Nontrivial  []uint64         `json:"nontrivial_hashes"`
-	LogHashes   map[int]uint64   `json:"log_hashes,omitempty"`
-	Samples     []any            `json:"samples,omitempty"`
-	WallS       float64          `json:"wall_s"`
-	Extra       map[string]any   `json:"extra,omitempty"`
+	Kind             string `json:"kind"` // "summary"
+	Engine           string `json:"engine"`
+	From, To         int
+	Runs             int              `json:"runs"`
+	Failures         map[string]int   `json:"failures"`
+	Steps            int64            `json:"steps"`
+	Switches         int64            `json:"switches"`
+	Preempts         int64            `json:"preempts"`
+	Forced           int64            `json:"forced_fired"`
+	OverBudget       int              `json:"over_budget"`
+	Policies         map[string]int   `json:"policies"`
+	Strategies       map[string]int   `json:"strategies"`
+	Cells            map[string]int   `json:"cells"` // strategy|api
+	PoolGets         int64            `json:"pool_gets"`
+	PoolPuts         int64            `json:"pool_puts"`
+	PoolNews         int64            `json:"pool_news"`
+	PoolDrops        int64            `json:"pool_drops"`
+	PoolMisses       int64            `json:"pool_misses"`
+	PoolReorder      int64            `json:"pool_reorders"`
+	Knobs            map[string]int   `json:"knobs"`
+	Probes           map[string]int64 `json:"probes"`
+	SitesHit         int              `json:"sites_hit"`
+	SitesTotal       int              `json:"sites_total"`
+	PreemptSitesUsed int              `json:"preempt_sites_used"`
+	Nontrivial       []uint64         `json:"nontrivial_hashes"`
+	LogHashes        map[int]uint64   `json:"log_hashes,omitempty"`
+	Samples          []any            `json:"samples,omitempty"`
+	WallS            float64          `json:"wall_s"`
+	Extra            map[string]any   `json:"extra,omitempty"`
 }
 
 type FailLine struct {
-	Kind     string    `json:"kind"` // "failure"
-	Engine   string    `json:"engine"`
-	Index    int       `json:"index"`
-	Seed     uint64    `json:"seed"`
-	Outcome  any       `json:"outcome"`
-	Scenario any       `json:"scenario"`
+	Kind     string `json:"kind"` // "failure"
+	Engine   string `json:"engine"`
+	Index    int    `json:"index"`
+	Seed     uint64 `json:"seed"`
+	Outcome  any    `json:"outcome"`
+	Scenario any    `json:"scenario"`
 }
 
 func main() {
@@ -68,6 +68,7 @@ func main() {
 	logHashes := flag.Bool("loghashes", false, "emit per-run log hashes (determinism self-test)")
 	budget := flag.Duration("budget", 0, "stop generating new runs after this wall time")
 	prop := flag.String("prop", "", "property id the history engine is asked to decide (C13|C20|C10)")
+	flag.BoolVar(&hookedKnobsAllowed, "hooks", true, "allow hook-only knobs (tiny DFA caches, small visited caps)")
 	flag.Parse()
 
 	w := bufio.NewWriter(os.Stdout)
@@ -81,6 +82,10 @@ func main() {
 		w = bufio.NewWriter(f)
 	}
 	defer w.Flush()
+	exit := func(code int) {
+		w.Flush()
+		os.Exit(code)
+	}
 	emit := func(v any) {
 		b, err := json.Marshal(v)
 		if err != nil {
@@ -117,6 +122,7 @@ func main() {
 		st.Sites = make([]Site, 16)
 	}
 	st.fill()
+	globalSites = st
 
 	start := time.Now()
 	switch *engine {
@@ -124,23 +130,26 @@ func main() {
 		emit(strategyTable())
 	case "conc":
 		if *replay != "" {
-			os.Exit(replayConc(*replay, st, emit))
+			exit(replayConc(*replay, st, emit))
 		}
 		if *minimize != "" {
-			os.Exit(minimizeConc(*minimize, st, emit))
+			exit(minimizeConc(*minimize, st, emit))
 		}
 		concBatch(*base, *from, *to, *tier, st, *logHashes, *budget, start, emit)
 	case "history":
 		if *replay != "" {
-			os.Exit(replayHistory(*replay, emit))
+			exit(replayHistory(*replay, emit))
 		}
 		if *minimize != "" {
-			os.Exit(minimizeHistory(*minimize, emit))
+			exit(minimizeHistory(*minimize, emit))
 		}
 		historyBatch(*prop, *base, *from, *to, *tier, *logHashes, *budget, start, emit)
 	case "stream":
 		if *replay != "" {
-			os.Exit(replayStream(*replay, emit))
+			exit(replayStream(*replay, emit))
+		}
+		if *minimize != "" {
+			exit(minimizeStream(*minimize, emit))
 		}
 		streamBatch(*prop, *base, *from, *to, *tier, *budget, start, emit)
 	default:
